@@ -1,6 +1,103 @@
+(* C07 — property theorems. Statements only; proofs are in Proofs*.v. Each theorem is followed by
+   Print Assumptions. Models: coq/C07/Model.v (tied to /repo by the correspondence check). *)
 From Coq Require Import List NArith ZArith Bool.
-From LTV.C07 Require Import Model Proofs.
+From LTV Require Import Common.Bytes.
+From LTV.C07 Require Import Model Proofs ProofsDec ProofsSafe ProofsRT ProofsFaith ProofsAgree.
+Import ListNotations.
+Local Open Scope N_scope.
 
+(* constants re-extracted from the source satisfy the side conditions *)
 Theorem params_ok_now : Proofs.params_ok = true.
 Proof. exact Proofs.params_ok_now. Qed.
 Print Assumptions params_ok_now.
+
+(* Round trip, buffer reader: for every well-formed tree (ints in int64, string lengths < 2^32,
+   strictly sorted keys — what std::map guarantees), nesting below the depth limit, followed by ANY
+   bytes r: decoding returns exactly the tree, flag clear, and stops exactly at r. *)
+Theorem enc_dec_c : forall v r,
+  wf v -> height v < depth_limit_c -> N.of_nat (length (enc v ++ r)) < two32 ->
+  decode_c (enc v ++ r) = Ok (v, false) r.
+Proof. exact ProofsRT.enc_dec_c. Qed.
+Print Assumptions enc_dec_c.
+
+Example enc_dec_c_nonvacuous :
+  let v := VMap [([97], VList [VInt (-5); VStr [0; 255]]); ([98], VInt 9223372036854775807)] in
+  wf v /\ height v < depth_limit_c /\ decode_c (enc v ++ [120]) = Ok (v, false) [120].
+Proof. cbn [wf height]. repeat split; try reflexivity; vm_compute; reflexivity. Qed.
+
+(* Canonical output: the encoding of a well-formed tree is canonical bencode (minimal decimal
+   integers and lengths, keys strictly increasing) *)
+Theorem enc_canonical : forall v, wf v -> canon v (enc v).
+Proof. exact ProofsRT.enc_canonical_all. Qed.
+Print Assumptions enc_canonical.
+
+(* ... and the encoder is injective, so equal trees are the only ones with equal encodings and an
+   info dictionary re-encodes (hence hashes, for any hash function) identically after a round trip *)
+Theorem enc_injective : forall v1 v2,
+  wf v1 -> wf v2 -> height v1 < depth_limit_c -> height v2 < depth_limit_c ->
+  N.of_nat (length (enc v1)) < two32 -> enc v1 = enc v2 -> v1 = v2.
+Proof. exact ProofsRT.enc_injective. Qed.
+Print Assumptions enc_injective.
+
+Theorem reencode_stable : forall v l v' fl r,
+  wf v -> height v < depth_limit_c -> N.of_nat (length (enc v ++ l)) < two32 ->
+  decode_c (enc v ++ l) = Ok (v', fl) r -> enc v' = enc v /\ fl = false /\ r = l.
+Proof. exact ProofsRT.reencode_stable. Qed.
+Print Assumptions reencode_stable.
+
+(* Totality and in-range reads on ARBITRARY input (shorter than 2^32 bytes): every reader
+   terminates within the fuel of its top-level definition and never dereferences past 'last'
+   (Fault); an accepting run consumes at least one byte. *)
+Theorem decode_c_total : forall l, short l ->
+  decode_c l <> Fault /\ decode_c l <> OutOfFuel /\
+  (forall x r, decode_c l = Ok x r -> (length r < length l)%nat).
+Proof. exact ProofsSafe.decode_c_total. Qed.
+Print Assumptions decode_c_total.
+
+Theorem decode_stream_total : forall l,
+  decode_stream l <> Fault /\ decode_stream l <> OutOfFuel /\
+  (forall x r, decode_stream l = Ok x r -> (length r < length l)%nat).
+Proof. exact ProofsSafe.decode_stream_total. Qed.
+Print Assumptions decode_stream_total.
+
+Theorem skip_c_total : forall l, short l ->
+  skip_c l <> Fault /\ skip_c l <> OutOfFuel /\ (forall u r, skip_c l = Ok u r -> (length r < length l)%nat).
+Proof. exact ProofsSafe.skip_c_total. Qed.
+Print Assumptions skip_c_total.
+
+(* Faithful decoding: what the buffer reader accepts is the value the consumed prefix denotes in
+   (liberal) bencode: integers and string lengths are the true decimal values, never wrapped
+   (input shorter than 2^31 bytes: the marker-bit trick of object_read_bencode_c_string needs it) *)
+Theorem decode_c_faithful : forall l v fl r,
+  small l -> decode_c l = Ok (v, fl) r -> exists pre, l = pre ++ r /\ denotes pre v.
+Proof. exact ProofsFaith.decode_c_faithful. Qed.
+Print Assumptions decode_c_faithful.
+
+(* accepted integers lie in int64: the unbounded arithmetic of the model never leaves the range
+   in which the code's int64 arithmetic is exact *)
+Theorem c_value_in_range : forall l z rest, c_value l = Some (z, rest) -> in_int64 z = true.
+Proof. exact ProofsFaith.c_value_in_range. Qed.
+Print Assumptions c_value_in_range.
+
+(* The decoders agree on every input both accept *)
+Theorem decoders_agree : forall l v1 f1 r1 v2 f2 r2,
+  small l -> decode_c l = Ok (v1, f1) r1 -> decode_stream l = Ok (v2, f2) r2 ->
+  v1 = v2 /\ f1 = f2 /\ r1 = r2.
+Proof. exact ProofsAgree.decoders_agree. Qed.
+Print Assumptions decoders_agree.
+
+(* Stream round trip, PARTIAL: the stream reader returns the tree or rejects. Missing for the
+   full statement: that it rejects only when a string exceeds its 32 MiB cap (the correspondence
+   run covers the acceptance side on generated trees). *)
+Theorem enc_dec_stream_partial : forall v r,
+  wf v -> height v < depth_limit_c -> N.of_nat (length (enc v ++ r)) < two31 ->
+  decode_stream (enc v ++ r) = Ok (v, false) r \/ decode_stream (enc v ++ r) = Reject.
+Proof. exact ProofsAgree.enc_dec_stream_partial. Qed.
+Print Assumptions enc_dec_stream_partial.
+
+(* The full faithfulness statement is FALSE for the stream reader (libstdc++ number parsing):
+   recorded finding class stream-istream-number-liberal; witness "i 1e" decodes to 1. *)
+Theorem decode_stream_faithful_refuted :
+  exists l v fl r, decode_stream l = Ok (v, fl) r /\ decode_c l = Reject.
+Proof. exists [105; 32; 49; 101], (VInt 1), false, []. split; vm_compute; reflexivity. Qed.
+Print Assumptions decode_stream_faithful_refuted.
